@@ -12,6 +12,7 @@ import (
 	"github.com/pingcap/failpoint"
 	"github.com/pingcap/kvproto/pkg/metapb"
 	"github.com/pingcap/tidb/pkg/store/mockstore/unistore"
+	ustikv "github.com/pingcap/tidb/pkg/store/mockstore/unistore/tikv"
 	"github.com/tikv/client-go/v2/testutils"
 	"github.com/tikv/client-go/v2/tikv"
 	"github.com/tikv/client-go/v2/tikvrpc"
@@ -108,6 +109,7 @@ func New(backend string, stores int) (*Universe, error) {
 		sid, _, _ := unistore.BootstrapWithSingleStore(cluster)
 		u.StoreIDs = []uint64{sid}
 		u.backClient, u.backPD, u.Cluster = &unistoreClientWrapper{client}, pdClient, cluster
+		u.Clock = NewVClockFrom(ustikv.GetTS)
 	default:
 		return nil, fmt.Errorf("unknown backend %q", backend)
 	}
